@@ -8,14 +8,17 @@
 (***************************************************************************)
 EXTENDS FdlGen, FdlSelect, Json
 
-CONSTANT EmitOn
+CONSTANTS EmitOn,
+          OpMode    \* "full": 18 selections x 6 operations; "lean": buildable_type = Buildable only
 
 Init == GenInit
 Next == NewObj
 C == Canon(heap, Root)
 
 SOp(n, f, s, b, sl, v) == [name |-> n, fn |-> f, sub |-> s, bt |-> b, slot |-> sl, val |-> v]
-Sels == {<<f, s, b>> : f \in 1..3, s \in BOOLEAN, b \in {"buildable", "config", "partial"}}
+Sels == {<<f, s, b>> : f \in 1..3, s \in BOOLEAN,
+                        b \in (IF OpMode = "full" THEN {"buildable", "config", "partial"}
+                               ELSE {"buildable"})}
 OpsOf ==
   UNION {{SOp("iter", q[1], q[2], q[3], 0, 0), SOp("get", q[1], q[2], q[3], 1, 0),
           SOp("set", q[1], q[2], q[3], 2, 8),
@@ -43,7 +46,8 @@ Laws ==
               ELSE r.h[o].items[j] = C[o].items[j])
 
 Emit ==
-  (EmitOn /\ IsComplete /\ GenPrune) =>
+  \* select() takes a Buildable as its root
+  (EmitOn /\ IsComplete /\ GenPrune /\ IsBuildableKind(heap[Root].k)) =>
     \A op \in OpsOf :
       LET r == ApplySelOp(C, 1, op) IN
       PrintT(ToJson([heap |-> C, op |-> op, out |-> r.out, ret |-> r.ret,
